@@ -123,6 +123,8 @@ type Machine struct {
 	// Past[key]: every value the key ever had (for updates that go back to an earlier value)
 	Past   map[string][][]byte
 	delSeq int
+	// Graveyard: the entry each removed key had when it was removed last
+	Graveyard map[string]refwmpt.Entry
 }
 
 func New(db *memkv.Store, fail func(string, ...any)) *Machine {
@@ -230,6 +232,10 @@ func (m *Machine) Delete(key []byte) {
 		if err != nil {
 			m.Fail("delete of present %x: %v", key, err)
 		}
+		if m.Graveyard == nil {
+			m.Graveyard = map[string]refwmpt.Entry{}
+		}
+		m.Graveyard[string(key)] = e
 		delete(m.Model, string(key))
 		m.Dirty = true
 	} else if err == nil {
@@ -402,4 +408,23 @@ func CollidingValues() ([]byte, []byte) {
 		}
 	})
 	return collideA, collideB
+}
+
+// Resurrect re-adds a key that is not live with exactly the entry it had when it was removed (the trie goes back
+// towards a state it was in before). Returns false when there is no such key.
+func (m *Machine) Resurrect(rt *rapid.T, label string) bool {
+	var cs []refwmpt.Entry
+	for k, e := range m.Graveyard {
+		if _, live := m.Model[k]; !live {
+			cs = append(cs, e)
+		}
+	}
+	if len(cs) == 0 {
+		return false
+	}
+	sort.Slice(cs, func(i, j int) bool { return bytes.Compare(cs[i].Key, cs[j].Key) < 0 })
+	e := gen.Pick(rt, cs, label)
+	m.Logf("(re-add a removed entry unchanged)")
+	m.Rewrite(e)
+	return true
 }
